@@ -12,7 +12,9 @@ EXPLANATION = (
     "History entry (plies / player by the inverse operation); (BOARD3) the three redundant board views are written "
     "only in Board::set_at / remove_at and always together for the same square; (EDITPAIR) for every feasible "
     "combination of move predicates the board edits of undo_move mirror those of make_move (remove<->set, same "
-    "square class). Not decided: that the forward edit is the one the rules of chess prescribe."
+    "square class); (FORWARD) the forward rules' tables: which castling right is lost under which trigger, the four "
+    "conditions of recording an en-passant target, the en-passant victim square, the piece placed on promotion, the "
+    "halfmove-clock reset on capture or pawn move. Not decided: the remaining value semantics of the forward edit."
 )
 
 PAIRS = [("Game::make_move", "Game::undo_move"), ("Game::make_null_move", "Game::undo_null_move")]
@@ -25,6 +27,7 @@ def run(fx, rep, tier):
     rule_hist(fx, rep)
     rule_board3(fx, rep)
     rule_editpair(fx, rep)
+    rule_forward(fx, rep)
 
 
 # ---- C02-UNDO ------------------------------------------------------------------------------
@@ -432,8 +435,178 @@ def match_classes(a, b):
     return True
 
 
+# ---- C02-FORWARD ---------------------------------------------------------------------------
+
+
+def rule_forward(fx, rep):
+    """Structural clauses of the forward rules in make_move: castling-rights loss table, en-passant target
+    conditions, promotion placement, en-passant victim square, halfmove-clock reset."""
+    from facts import guard_conditions, cmp_op, deep_strip, find_calls
+    ok = True
+    n = 0
+    bm = fx.one("Game::make_move")
+
+    def bad(key, msg, line=None):
+        nonlocal ok
+        ok = False
+        rep.violation("C02-FORWARD", f"C02-FORWARD/{key}", msg, {"fn": bm.name, "file": bm.file, "line": line or bm.line})
+
+    def is_mover(e):
+        e = deep_strip(e)
+        return isinstance(e, tuple) and e[0] == "field" and e[2] == "player" and e[1] == ("arg", 1, "self")
+
+    def is_other(e):
+        e = deep_strip(e)
+        return isinstance(e, tuple) and e[0] == "call" and e[1].endswith("Player::other") and is_mover(e[2][0])
+
+    def sq_kind(e):
+        e = deep_strip(e)
+        if isinstance(e, tuple) and e[0] == "call" and e[1].endswith("Move::src"):
+            return "from"
+        if isinstance(e, tuple) and e[0] == "call" and e[1].endswith("Move::dst"):
+            return "to"
+        return None
+
+    # (a) castling rights loss table
+    found = set()
+    for bb, t in bm.calls_to("Game::try_remove_castle_rights"):
+        n += 1
+        who = "mover" if is_mover(bm.expr(t["args"][1], expand_named=True, at=bb)) else ("other" if is_other(bm.expr(t["args"][1], expand_named=True, at=bb)) else None)
+        side = deep_strip(bm.expr(t["args"][2], expand_named=True, at=bb))
+        side = str(side[1]).split("::")[-1] if isinstance(side, tuple) and side[0] == "agg" else None
+        trig = None
+        extra = []
+        for (e, pol, w) in guard_conditions(bm, bb, expand_named=True):
+            txt = show(e)
+            known = ("PieceKind::King" in txt or "PieceKind::Rook" in txt) and "kind" in txt and cmp_op(e) is not None
+            known = known or (cmp_op(e) is not None and cmp_op(e)[0] == "Eq" and any(k in txt for k in ("squares::king_start", "squares::kingside_rook_start", "squares::queenside_rook_start")) and
+                              len(find_calls(e, "squares::king_start", "squares::kingside_rook_start", "squares::queenside_rook_start")) == 1 and not find_calls(e, "Not>::not"))
+            known = known or (isinstance(e, tuple) and e[0] == "is_some" and bool(find_calls(e, "Board::piece_at")))
+            if not known:
+                extra.append(txt[:80])
+            co = cmp_op(e)
+            if not co or co[0] != "Eq" or pol is not True:
+                continue
+            a, b = deep_strip(co[1]), deep_strip(co[2])
+            for x, y in ((a, b), (b, a)):
+                if sq_kind(x) and isinstance(y, tuple) and y[0] == "call" and y[1].split("::")[-1] in ("king_start", "kingside_rook_start", "queenside_rook_start"):
+                    owner = "mover" if is_mover(y[2][0]) else ("other" if is_other(y[2][0]) else None)
+                    trig = (sq_kind(x), y[1].split("::")[-1], owner)
+        good = False
+        if trig and who and side:
+            sqk, start, owner = trig
+            good = owner == who and ((who == "mover" and sqk == "from") or (who == "other" and sqk == "to")) and \
+                (start == "king_start" or (start == "kingside_rook_start" and side == "Kingside") or (start == "queenside_rook_start" and side == "Queenside")) and \
+                not (start == "king_start" and who == "other") and not extra
+            if good:
+                found.add((who, side, start))
+        rep.obligation(good)
+        if not good:
+            bad(f"rights/{who}/{side}", f"make_move line {t.get('line')}: the {side} right of the {who} is removed under trigger {trig}" + (f" and extra condition(s) {extra}" if extra else "") + "; expected: mover's king leaves its start square (both sides), a rook leaves / is captured on that side's corner", t.get("line"))
+    want = {("mover", "Kingside", "king_start"), ("mover", "Queenside", "king_start"), ("mover", "Kingside", "kingside_rook_start"), ("mover", "Queenside", "queenside_rook_start"),
+            ("other", "Kingside", "kingside_rook_start"), ("other", "Queenside", "queenside_rook_start")}
+    n += 1
+    good = found == want
+    rep.obligation(good)
+    rep.sample({"rule": "C02-FORWARD", "rights_loss_table": sorted(map(list, found))})
+    if not good:
+        bad("rights/table", f"castling-rights loss table is {sorted(found)}; missing {sorted(want - found)}")
+    # the king/rook tests look at the moved piece's kind
+    # (b) en-passant target: Some(from.forward(player)) only for a pawn double push from its start rank next to an enemy pawn
+    n += 1
+    good, why = False, "no `Some(from.forward(player))` found"
+    for bb, j, s in bm.stmts():
+        rv = s.get("rv")
+        if s["k"] == "assign" and rv and rv["k"] == "agg" and rv.get("variant") == "Some" and "Square" in rv.get("ty", ""):
+            v = deep_strip(bm.expr(rv["ops"][0], expand_named=True, at=bb))
+            if isinstance(v, tuple) and v[0] == "call" and v[1].endswith("Square::forward") and sq_kind(v[2][0]) == "from" and is_mover(v[2][1]):
+                conds = guard_conditions(bm, bb, expand_named=True)
+                txt = [(show(e), pol) for (e, pol, w) in conds]
+                need = {
+                    "pawn": any("PieceKind::Pawn" in t and pol is True for t, pol in txt),
+                    "start-rank": any("pawn_back_rank" in t and "Move::src" in t and pol is True for t, pol in txt),
+                    "double-push-rank": any("pawn_double_push_rank" in t and "Move::dst" in t and pol is True for t, pol in txt),
+                    "enemy-pawn-beside": any("Board::pawns" in t and "Player::other" in t and ("Bitboard::west" in t or "Bitboard::east" in t) and pol is True for t, pol in txt),
+                }
+                good = all(need.values())
+                why = f"conditions present: {need}"
+    rep.obligation(good)
+    if not good:
+        bad("ep-target", f"the en-passant target is recorded without all of its conditions (pawn, from its start rank, to the double-push rank, enemy pawn beside): {why}")
+    # the victim of an en-passant capture is the pawn behind the destination
+    n += 1
+    good = False
+    for bb, t in bm.calls_to("Game::remove_at"):
+        sq = deep_strip(bm.expr(t["args"][1], expand_named=True, at=bb))
+        if isinstance(sq, tuple) and sq[0] == "call" and sq[1].endswith("Square::backward"):
+            conds = [(show(e), pol) for (e, pol, w) in guard_conditions(bm, bb, expand_named=True)]
+            good = sq_kind(sq[2][0]) == "to" and is_mover(sq[2][1]) and any("Move::is_en_passant" in t_ and pol is True for t_, pol in conds)
+    rep.obligation(good)
+    if not good:
+        bad("ep-victim", "the pawn removed by an en-passant capture is not the one on `to.backward(player)` under `mv.is_en_passant()`")
+    # (d) promotion: the piece placed is Piece::new(player, promoted_to.piece()), otherwise the piece lifted from `from`
+    n += 1
+    placed = {}
+    for bb, t in bm.calls_to("Game::set_at"):
+        sq = bm.expr(t["args"][1], expand_named=True, at=bb)
+        if sq_kind(sq) != "to":
+            continue
+        pc = deep_strip(bm.expr(t["args"][2], expand_named=True, at=bb))
+        cond = gh.edit_condition(bm, bb)
+        key = "promo" if ("promo", True) in cond else ("plain" if ("promo", False) in cond else "?")
+        placed[key] = pc
+    pp, pl = placed.get("promo"), placed.get("plain")
+    good = isinstance(pp, tuple) and pp[0] == "call" and pp[1].endswith("Piece::new") and is_mover(pp[2][0]) and bool(find_calls(pp[2][1], "PromotionPieceKind::piece")) and \
+        bool(find_calls(pp[2][1], "Move::promotion")) and isinstance(pl, tuple) and pl[0] == "call" and pl[1].endswith("Game::remove_at") and sq_kind(pl[2][1]) == "from"
+    rep.obligation(good)
+    if not good:
+        bad("placement", f"the piece placed on the destination is promo `{show(pp)[:80] if pp else None}` / plain `{show(pl)[:80] if pl else None}`; expected Piece::new(player, promotion.piece()) / the piece lifted from `from`")
+    # (c) halfmove clock: reset to 0 exactly on capture or pawn move, else +1
+    n += 1
+    zero = [(bb, s) for bb, j, s in bm.stmts() if s["k"] == "assign" and gh.self_game_field(s["lhs"]) == "halfmove_clock" and s["lhs"]["l"] == 1 and
+            s["rv"]["k"] == "use" and s["rv"]["op"].get("int") == 0]
+    good = len(zero) == 1
+    if good:
+        zb = zero[0][0]
+        # the flag deciding the reset: its definitions are `true` under is_some(captured) and `kind == Pawn` otherwise
+        conds = guard_conditions(bm, zb, expand_named=False)
+        flag = None
+        for (e, pol, w) in conds:
+            d = deep_strip(e)
+            if isinstance(d, tuple) and d[0] in ("var", "tmp") and pol is True:
+                flag = d[-1]
+        good = flag is not None
+        if good:
+            defs = bm.defs().get(flag, [])
+            kinds = set()
+            for d in defs:
+                if d[0] == "stmt" and d[3]["rv"]["k"] == "use" and d[3]["rv"]["op"].get("int") == 1:
+                    g = [(show(e), pol) for (e, pol, w) in guard_conditions(bm, d[1], expand_named=True)]
+                    if any("Board::piece_at" in t_ and "Move::dst" in t_ and pol is True for t_, pol in g):
+                        kinds.add("capture")
+                elif d[0] == "call":
+                    e = show(("call", norm(callee_name(d[2]) or ""), tuple(bm.expr(a, expand_named=True, at=d[1]) for a in d[2]["args"])))
+                    if "PieceKind::Pawn" in e and "Game::remove_at" in e:
+                        kinds.add("pawn")
+            good = kinds == {"capture", "pawn"}
+    rep.obligation(good)
+    if not good:
+        bad("clock", "the halfmove clock is not reset to 0 exactly when the move captures or moves a pawn")
+    rep.rule("C02-FORWARD", n, 11, ok, "forward rules: rights loss table, e.p. target / victim, promotion placement, clock reset")
+
+
 G = "src/chess/game.rs"
 MUTANTS = [
+    {"name": "capturing the queenside rook removes the kingside right", "expect": "C02-FORWARD/rights",
+     "edits": [(G, "            } else if to == squares::queenside_rook_start(other_player) {\n                self.try_remove_castle_rights(other_player, CastleRightsSide::Queenside);", "            } else if to == squares::queenside_rook_start(other_player) {\n                self.try_remove_castle_rights(other_player, CastleRightsSide::Kingside);")]},
+    {"name": "rook moving from its corner does not lose the right", "expect": "C02-FORWARD/rights",
+     "edits": [(G, "            if from == squares::kingside_rook_start(player) {\n                self.try_remove_castle_rights(player, CastleRightsSide::Kingside);\n            } else if", "            if from == squares::kingside_rook_start(player) && to != squares::king_start(player) {\n                self.try_remove_castle_rights(player, CastleRightsSide::Kingside);\n            } else if")]},
+    {"name": "en-passant target recorded without an enemy pawn beside", "expect": "C02-FORWARD/ep-target",
+     "edits": [(G, "            if en_passant_can_happen {\n                Some(from.forward(player))\n            } else {\n                None\n            }", "            let _ = en_passant_can_happen;\n            Some(from.forward(player))")]},
+    {"name": "promotion places a pawn of the promoted kind's colour swapped", "expect": "C02-FORWARD/placement",
+     "edits": [(G, "            let promoted_piece = Piece::new(player, promoted_to.piece());", "            let promoted_piece = Piece::new(other_player, promoted_to.piece());")]},
+    {"name": "clock not reset on pawn moves", "expect": "C02-FORWARD/clock",
+     "edits": [(G, "            maybe_captured_piece.is_some() || moved_piece.kind == PieceKind::Pawn;", "            maybe_captured_piece.is_some() || moved_piece.kind == PieceKind::King;")]},
     {"name": "undo_move forgets halfmove_clock", "expect": "C02-",
      "edits": [(G, "        self.halfmove_clock = history.halfmove_clock;\n        self.castle_rights", "        self.castle_rights")]},
     {"name": "undo_null_move forgets en_passant_target", "expect": "C02-",
